@@ -31,7 +31,7 @@ def gen_programs(rep, wd, module, cfg, label, keep=0, exact=False, timeout=1800)
     return out, n, len(rows)
 
 
-def run_and_validate(rep, wd, progs_path, label, shards=8, timeout=3600, trace_module="Core/CoreTrace"):
+def run_and_validate(rep, wd, progs_path, label, shards=8, timeout=3600, trace_module="Core/CoreTrace", sub="core"):
     """Runs the programs on the 4 real back-ends (x2 fills) and validates the log with CoreTrace.
     Returns (events: list, bad: [(idx0, kind)])."""
     rows = common.read_ndjson(progs_path)
@@ -49,9 +49,9 @@ def run_and_validate(rep, wd, progs_path, label, shards=8, timeout=3600, trace_m
     def one(arg):
         s, pth = arg
         evp = os.path.join(wd, "%s.s%d.events.ndjson" % (label, s))
-        p = common.harness(["core", pth, evp], env={"VERIF_SEED": common.seed()}, timeout=timeout)
+        p = common.harness([sub, pth, evp], env={"VERIF_SEED": common.seed()}, timeout=timeout)
         if p.returncode != 0:
-            raise ToolError("harness core failed rc=%d\n%s" % (p.returncode, p.stdout[-3000:]))
+            raise ToolError("harness " + sub + " failed rc=%d\n%s" % (p.returncode, p.stdout[-3000:]))
         ev = common.read_ndjson(evp)
         r = common.tlc(trace_module, env={"TRACE": evp}, workers=1, wd=wd, timeout=timeout, xmx="6g")
         common.tlc_must(r, "trace " + label)
